@@ -2,7 +2,7 @@
 # selftest/all.sh [tier] [seed...]   runs every registered check on the current tree; prints exit code and seconds
 TIER="${1:-quick}"; shift
 SEEDS="${@:-0}"
-cd /verif
+cd "$(dirname "$0")/.."
 for s in $SEEDS; do
   for i in $(seq -w 1 20); do
     id=C$i; t0=$(date +%s.%N)
